@@ -44,6 +44,7 @@ type responseWriter struct {
 	size        int          // The written size of the response.
 	beforeFuncs []BeforeFunc // The list of functions to be called before written to the response.
 
+	callBeforeOnce  sync.Once
 	writeHeaderOnce sync.Once
 }
 
@@ -65,12 +66,10 @@ func (w *responseWriter) callBefore() {
 }
 
 func (w *responseWriter) WriteHeader(s int) {
+	// The before functions are called once on their own, so that the status can
+	// still be sent (e.g. by the Recovery) after one of them has panicked.
+	w.callBeforeOnce.Do(w.callBefore)
 	w.writeHeaderOnce.Do(func() {
-		if w.Written() {
-			return
-		}
-
-		w.callBefore()
 		w.ResponseWriter.WriteHeader(s)
 		atomic.StoreInt32(&w.status, int32(s))
 	})
